@@ -38,7 +38,7 @@ COMMON = (" The extracted model is run against the real crate (arrays, tuples of
           "early drops, panicking children) and must predict the implementation's trace under the property's projection; a monitor re-evaluates the "
           "property on every implementation trace, and the Coq-extracted trace predicates the theorems are about (runner/montool.ml) are evaluated on the crate's traces too. Theorems quantify over all sizes, child behaviours and histories; only the correspondence is sampled.")
 claim("C01", "DESIGN.md 6 C01",
-      "16 theorems: selective strategy - after a Pending return, a child that is awaited, was polled, last answered Pending and whose waker fired implies the newest "
+      "43 statements in Properties/C01.v.  Selective strategy - after a Pending return, a child that is awaited, was polled, last answered Pending and whose waker fired implies the newest "
       "parent waker was woken (join/try_join slice+tuple, merge, zip, FutureGroup, StreamGroup), plus quiescence (no wake outstanding => every awaited child polled and "
       "unsignalled); non-selective strategy and race/race_ok/chain/wait_until - every waker ever handed out is the parent waker of that poll and firing it wakes that parent. "
       "C01_join_resolves_under_wake_driven_executor: under an executor that fires every child's most recent waker and then polls, a join of n>=1 Pending*-then-Ready children returns its positional result within (longest script) rounds and never unwinds; C01_join_family_returns_... (join and try_join), C01_merge_next_result_... and C01_zip_next_result_...: the stream form, from every reachable state (next item / row or the end within B rounds). The same for FutureGroup and StreamGroup after any history of inserts, removes and reserves (C01_group_next_result_..., the generic section speaks about occupied slots and the member a slot holds), for the join family from every reachable state, and - under every schedule of polls and wake-ups, since they keep no readiness of their own - for race, race_ok and chain (C01_race_resolves_..., C01_race_ok_resolves_..., C01_chain_next_result_...). "
